@@ -3,7 +3,13 @@
 //      or fail, and the codecvt facet returns partial results or errors.
 #include <fcppt/assert/unreachable.hpp>
 #include <fcppt/extract_from_string.hpp>
+#include <fcppt/narrow.hpp>
 #include <fcppt/narrow_locale.hpp>
+#include <fcppt/widen.hpp>
+#include <fcppt/from_std_wstring.hpp>
+#include <fcppt/to_std_wstring.hpp>
+#include <fcppt/string.hpp>
+#include <fcppt/optional_string.hpp>
 #include <fcppt/output_to_std_string.hpp>
 #include <fcppt/output_to_std_wstring.hpp>
 #include <fcppt/widen_locale.hpp>
@@ -629,6 +635,37 @@ struct World
         sim::violate(prefix ? "silent-truncation" : "roundtrip", "widen returned " + std::to_string(wide.size()) + " characters, expected " + std::to_string(expect_w.size()));
       }
     }
+    if (op.get("real") != 0 && !op.has("tear"))
+    {
+      // the entry points that take the locale from the environment (string_conv_locale() is
+      // std::locale(""); the harness runs with LC_ALL=C.UTF-8, see warmup)
+      fcppt::optional_std_string n2;
+      fcppt::optional_string n3;
+      std::wstring w2, w3;
+      bool threw2 = false;
+      try
+      {
+        sim::fault::Sut s;
+        n2 = fcppt::narrow(w);
+        n3 = fcppt::from_std_wstring(w);
+        w2 = fcppt::widen(utf8);
+        w3 = fcppt::to_std_wstring(fcppt::string(utf8));
+      }
+      catch (std::runtime_error const &)
+      {
+        threw2 = true;
+      }
+      SIM_CHECK(!threw2, "spurious-conversion-failure", "widen / to_std_wstring of a valid string failed in the environment's UTF-8 locale (" + hex(utf8) + ")");
+      SIM_CHECK(n2.has_value() && n3.has_value(), "spurious-conversion-failure", "narrow / from_std_wstring of a valid string failed in the environment's UTF-8 locale (" + hex(utf8) + ")");
+      auto const judge = [&](std::string const &got, char const *what) {
+        if (got != utf8)
+          sim::violate(got.size() < utf8.size() && utf8.compare(0, got.size(), got) == 0 ? "silent-truncation" : "roundtrip", std::string(what) + " returned " + hex(got) + ", the UTF-8 encoding is " + hex(utf8));
+      };
+      judge(n2.get_unsafe(), "narrow");
+      judge(n3.get_unsafe(), "from_std_wstring");
+      SIM_CHECK(w2 == w && w3 == w, w2.size() < w.size() || w3.size() < w.size() ? "silent-truncation" : "roundtrip", "widen / to_std_wstring returned " + std::to_string(w2.size()) + " / " + std::to_string(w3.size()) + " characters, expected " + std::to_string(w.size()));
+      ctx.probe("cvt_through_environment_locale");
+    }
     sim::codecvt_ctl().reset();
     ctx.ev("cvt len=" + std::to_string(len) + " bytes=" + std::to_string(utf8.size()) + " window=" + std::to_string(window) + (nerr ? " nerr" : "") + (torn ? " torn" : "") + (threw ? " wthrew" : ""));
   }
@@ -828,6 +865,9 @@ namespace prop
 {
 void warmup()
 {
+  // fcppt::narrow / widen / from_std_wstring / to_std_wstring take std::locale(""): the property
+  // speaks of a UTF-8 locale, so that is what the environment names while the harness runs
+  ::setenv("LC_ALL", "C.UTF-8", 1);
   (void)sim::sim_locale();
 }
 
